@@ -5,6 +5,9 @@ V = os.path.dirname(os.path.dirname(os.path.abspath(__file__)))
 TECH_CCV = 'contract-based deductive verification: CBMC code contracts (goto-instrument --dfcc) on function text extracted from /repo at check time'
 TECH_RVC = 'contract-based deductive verification: verification conditions generated from clang\'s AST of the real translation unit (own VC generator with forward-mode AD), discharged by exact polynomial normal form and z3'
 CHECKS = {
+ 'C02': dict(engine='RVC', cat='proof', tech=TECH_RVC,
+   text='Contracts on the three BCShortestConnection bodies, BoxVolume, getShortestBoxDimension and Topology::setBox, taken from the property: lattice form with integer coefficients, inside the minimum-image brick, antisymmetry, invariance under whole-box shifts of either point, shortest image (orthorhombic always; reduced triclinic below half the smallest diagonal element), volume = |det|, height = volume / base area, box-type dispatch. Proved for all real inputs on the AST of the real code.',
+   note='Assumes real arithmetic; std::round by its contract (nearest integer, odd, integer-shift equivariant); triclinic boxes in the lower-triangular column form the code documents; autoDetectBoxType is not decided.', ref='DESIGN.md section 5 C02'),
  'C07': dict(engine='RVC', cat='proof', tech=TECH_RVC,
    text='Per-function contracts "Grad = derivative of EvaluateVar", "DF/D2F = parameter derivatives of F", "CalculateDerivative = d/dr Calculate" proved as polynomial identities over all real inputs on the AST of the real code; CBSPL and spline obligations are proved per knot window for a fixed small number of knots (reported as bounded).',
    note='Assumes real arithmetic (no rounding), the Eigen/libm contracts of the executor, clang AST = compiled code, Topology::getDist contract (r_j - r_i up to a locally constant lattice vector). Rotation invariance and tabulated-potential output are not decided.', ref='DESIGN.md section 5 C07'),
